@@ -200,6 +200,8 @@ class Engine:
         self.notes = []
         self.nfail_files = 0
         self.uid = 0
+        self.minimal_seen = set()
+        self.tu_secs = {}
 
     # ----- plan
     def plan(self):
@@ -229,13 +231,17 @@ class Engine:
         got = []
         hyp_run(self.strategy(tu), derive_seed(self.seed, tu["idx"]), got.append)
         fns, seen = [], set()
-        # got[0] is Hypothesis' minimal example, got[-1] the seeded random one; keep both, dedupe
-        for ex in reversed(got):
+        # got[-1] is the seeded random example, got[0] Hypothesis' minimal example (all-int functions of the
+        # forced arities): keep both; a minimal function is checked once per toolchain, not once per TU
+        for n, ex in enumerate(reversed(got)):
             for s in ex:
                 k = G.canon(s)
-                if k not in seen:
-                    seen.add(k)
-                    fns.append(s)
+                if k in seen or (n > 0 and (k, tu["tc"].key()) in self.minimal_seen):
+                    continue
+                seen.add(k)
+                if n > 0:
+                    self.minimal_seen.add((k, tu["tc"].key()))
+                fns.append(s)
         tu["examples"] = got
         tu["fns"] = fns
 
@@ -243,8 +249,9 @@ class Engine:
     def check_tu(self, fns, tc, name):
         """Compile + run a list of function specs as one TU; fill the verdict cache; on TU-level trouble
         (compile error, abort) fall back to 1-function TUs.  Returns the emitted source."""
-        src, _ids = G.emit_tu(fns, title=name)
+        src, _ids = G.emit_tu(fns, title=name, std=tc.std)
         r = build_and_run(src, tc, self.scratch, name, self.salt)
+        self.tu_secs[name] = round(r["secs"], 1)
         if r.get("timeout"):
             self.notes.append("%s: compiler timeout (inconclusive)" % name)
             for s in fns:
@@ -366,7 +373,7 @@ class Engine:
 
     def write_fail(self, s, tc, why):
         """Emit s alone, verify that it still fails, and write the replay file.  Returns path or None."""
-        src, _ = G.emit_tu([s], title="failing function re-emitted alone", support_include=inline_support())
+        src, _ = G.emit_tu([s], title="failing function re-emitted alone", support_include=inline_support(), std=tc.std)
         v = self.verdict(s, tc)
         self.nfail_files += 1
         path = os.path.join(self.faildir, "p_fail.C09.%d.txt" % self.nfail_files)
@@ -407,7 +414,7 @@ class Engine:
             if not v or v["status"] not in ("fail", "abort"):
                 # fails only in the company of the other functions: keep the whole TU as the replay
                 self.cache[key] = before
-                src, _ = G.emit_tu(tu["fns"], title="whole TU (function does not fail alone)", support_include=inline_support())
+                src, _ = G.emit_tu(tu["fns"], title="whole TU (function does not fail alone)", support_include=inline_support(), std=tc.std)
                 self.nfail_files += 1
                 path = os.path.join(self.faildir, "p_fail.C09.%d.txt" % self.nfail_files)
                 msg = before["detail"] if before else "failure"
@@ -428,7 +435,7 @@ class Engine:
                     n += 1
                     if len(self.compile_errors) < 4:
                         path = os.path.join(self.faildir, "p_compile_error.C09.%d.cpp" % (len(self.compile_errors) + 1))
-                        src, _ = G.emit_tu([s], title="does not compile", support_include=inline_support())
+                        src, _ = G.emit_tu([s], title="does not compile", support_include=inline_support(), std=tu["tc"].std)
                         with open(path, "w") as f:
                             f.write("// compiler=%s std=%s include=%s\n" % (tu["tc"].compiler, tu["tc"].std, REPO))
                             f.write("/* compiler output (head):\n%s\n*/\n" % "\n".join(v.get("cerr", "").splitlines()[:60]).replace("*/", "* /"))
@@ -485,6 +492,7 @@ class Engine:
             "known_findings": [],
             "x_p_compile_errors": [{"source": p, "message": m} for p, m in self.compile_errors],
             "x_p_notes": self.notes,
+            "x_p_tu_secs": {k: v for k, v in sorted(self.tu_secs.items()) if k.startswith("tu")},
             "x_p_repo": REPO,
         }
         tmp = out + ".tmp"
